@@ -437,7 +437,9 @@ def j_c06_defaults(inp):
     kind, a = inp
     if kind != "defaults":
         return None
-    documented = list(util.get_default_note_values())
+    if ops.PPQN != 24:
+        return None
+    documented = [24, 12, 6, 16, 8, 4, 36, 18, 9]        # the default note values at PPQN 24 (Model/Util.v computes the same list)
     mine = util.get_default_note_values()
     mine[:] = [x for x in mine if x % 3 == 0]          # e.g. keep only the straight values
     s = mk_abs([ON(0, 60, 100, 0), OFF(0, 60, 16), ON(0, 62, 100, 48), OFF(0, 62, 56)])
@@ -899,7 +901,14 @@ def j_c09(inp):
             if (b.time_signature_numerator, b.time_signature_denominator) != sg:
                 v.append(f"track {ti} bar {bi} carries {b.time_signature_numerator}/{b.time_signature_denominator}, in force {sg}")
             kin = [m[10] for m in keys if m[2] <= st]
-            # the splitter consumes one key signature per bar: with aligned or sparse key changes this is the key in force
+            # the splitter consumes one key signature per bar: when every key signature stands on a bar line, one per
+            # bar line at most, the bar carries the key in force at its start
+            starts = {b_[0] for b_ in bounds}
+            if all(m[2] in starts for m in keys) and len({m[2] for m in keys}) == len(keys):
+                want = kin[-1] if kin else None
+                have = b.key_signature.name if b.key_signature is not None else None
+                if have != want:
+                    v.append(f"track {ti} bar {bi} carries the key {have}, in force at its start: {want}")
             laid += [m[:2] + (m[2] + st,) + m[3:] for m in a]
         so, si = sounding(laid), sounding(tracks[ti][0])
         if not qnl and so != si:
